@@ -363,6 +363,14 @@ class Consumer(object):
             """Handle the result of the commit attempted by shutdown"""
             if self._stopping or self._start_d is None:
                 return _interrupted_by_stop()
+            if (
+                self.consumer_group
+                and self._last_processed_offset is not None
+                and self._last_processed_offset != self._last_committed_offset
+            ):
+                # More was processed while that commit was under way (e.g.
+                # shutdown() was called from inside the processor): commit it
+                return _commit_and_stop(None)
             self._shutdown_d, d = None, self._shutdown_d
             self.stop()
             self._shuttingdown = False  # Shutdown complete
